@@ -422,6 +422,55 @@ def rule_k3(prog, adj):
         except NotEvaluable as e:
             raise Inconclusive('R-K-3', 'Kripke.%s not evaluable: %s' % (
                 name, e), f.where())
+        # labels() of the whole structure (no state given): the union of
+        # all label sets -- also for the structure without any state
+        bad_all = None
+        if name == 'labels':
+            empty = KS(CG([], {}), frozenset(), {})
+            try:
+                for ks in [empty] + structs[:40]:
+                    if None in ks.g.nodes:
+                        continue
+                    env = kripke_env(K, adj, ks, {s: None})
+                    nm += 1
+                    want = frozenset(x for l in ks.labels.values() for x in l)
+                    got = None
+                    for (p, v) in res:
+                        try:
+                            if not pc_holds(p, env, I):
+                                continue
+                        except GraphError:
+                            continue
+                        if isinstance(v, Raise):
+                            c = I.exc_class(v.exc)
+                            got = c.name if c else 'raise'
+                        else:
+                            try:
+                                got = _freeze(KEval(env).ev(
+                                    deep_snapshot(I, v, p)))
+                            except GraphError as e:
+                                got = 'internal error: %s' % e
+                        break
+                    if got != want and bad_all is None:
+                        bad_all = (ks, got, want)
+            except NotEvaluable as e:
+                raise Inconclusive('R-K-3', 'Kripke.labels() not evaluable: '
+                                   '%s' % e, f.where())
+            if bad_all:
+                ks, got, want = bad_all
+                r.fail(Finding(
+                    PROP, 'R-K-3', f.where(), f.short(),
+                    'accessor:labels:all',
+                    'Kripke.labels() on %r gives %r, expected the union of '
+                    'all label sets %r%s' % (
+                        ks, _s2(got), _s2(want),
+                        ' (the structure without states is a legal, '
+                        'vacuously total structure; the CTL* checker and '
+                        'every fair query call labels())'
+                        if not ks.g.nodes else ''),
+                    expected=repr(_s2(want)), found=repr(_s2(got))))
+            else:
+                r.ok()
         # a state added after construction (add_node / add_edge of the
         # graph layer): it is a node, it has successors, but no label entry
         bad_late = None
